@@ -61,8 +61,9 @@ def run(ctx):
                 cases.append({"kind": "c01", "inst": inst, "L": L, "P": P, "shape": "small-scope", "penalties": kind})
         ctx.notes["exhaustive_small_scope"] = "all instances with <= 2 jobs x <= 2 operations on 2 machines, durations <= 2, slack 0..2 with 1..10 qubits, one penalty configuration each, all basis states"
     cases += [dict(je.gen_contended_case(ctx.rng, share=None), kind=PID.lower()) for _ in range(ctx.n(24, 250))]
+    cases += [dict(je.gen_large_slack_case(ctx.rng, share=ctx.rng.choice([0, 0, 0.5, 0.25])), kind=PID.lower()) for _ in range(ctx.n(6, 60))]
     for c in cases:
-        summ = (je.examine_low_energy if c.get("scan") else je.examine)(ctx, batch, c, WANT, ctx.rng)
+        summ = je.examiner(c)(ctx, batch, c, WANT, ctx.rng)
         tally_case(ctx, c, summ)
     je.report_mismatches(ctx, PID, batch)
 
@@ -72,7 +73,7 @@ def replay(ctx, payload):
         return translate.replay(ctx, payload, "C01")  # a replay file written for a broken translation tie
     c = payload.get("case") or payload.get("failing_input")
     batch = je.Batch()
-    (je.examine_low_energy if c.get("scan") else je.examine)(ctx, batch, c, WANT, ctx.rng)
+    je.examiner(c)(ctx, batch, c, WANT, ctx.rng)
     for v in ctx.violations[:10]:
         print("oracle:", v["key"], "-", v["what"])
     print("impl-vs-property:", "FAILS" if ctx.violations else "ok")
